@@ -33,10 +33,17 @@ def plan(tier, seed):
     return [{"part": i, "parts": n, "tier": tier, "_name": f"part-{i}"} for i in range(n)] + [{"kind": "xproc", "tier": tier, "_env": {"PYTHONHASHSEED": "12"}, "_name": "xproc"}]
 
 
+def ensure_user_classes(S):
+    for cls_name, base in (("UserIBAN", S.IBAN), ("UserBIC", S.BIC), ("UserBBAN", S.BBAN)):
+        if cls_name not in globals():
+            globals()[cls_name] = type(cls_name, (base,), {"__module__": __name__, "label": cls_name})
+
+
 def build_pool(S, rng, n):
     table = data.countries()
     cs = sorted(table)
     pool = []  # (label, object)
+    table = data.countries()
     for i in range(n // 3):
         cc = rng.choice(cs)
         t = R.make_iban(cc, gen.random_bban(table[cc], rng))
@@ -85,13 +92,22 @@ def build_pool(S, rng, n):
             pool.append(("BIC_unvalidated", S.BIC("GENODEM1GL" + ch, allow_invalid=True)))
         else:
             pool.append(("BBAN", S.BBAN("DE", ch + base[4:])))
+    # instances of user subclasses (importable from this module, so they can be pickled)
+    ensure_user_classes(S)
+    t0 = R.make_iban("DE", gen.random_bban(table["DE"], rng))
+    u1 = globals()["UserIBAN"](t0)
+    u1.note = "customer 4711"
+    u2 = globals()["UserBIC"]("GENODEM1GLS")
+    u3 = globals()["UserBBAN"]("DE", t0[4:])
+    u3.note = "x"
+    pool += [("IBAN_subclass", u1), ("IBAN", S.IBAN(t0)), ("BIC_subclass", u2), ("BIC", S.BIC("GENODEM1GLS")), ("BBAN_subclass", u3), ("BBAN", S.BBAN("DE", t0[4:]))]
     pool.append(("BBAN", S.BBAN("", "")))
     pool.append(("BBAN", S.BBAN("XX", "123")))
     return pool
 
 
 def state(o):
-    d = {"class": type(o).__name__, "str": str(o)}
+    d = {"class": type(o).__name__, "str": str(o), "extra": {k: v for k, v in getattr(o, "__dict__", {}).items() if k in ("note", "label")}}
     for attr in ("country_code",) + tuple(COMPONENTS) + ("checksum_digits", "location_code"):
         try:
             d[attr] = getattr(o, attr)
@@ -126,6 +142,7 @@ def run_xproc(shard, mon, S):
     import subprocess  # noqa: PLC0415
     import tempfile  # noqa: PLC0415
 
+    ensure_user_classes(S)
     for proto in (2, pickle.HIGHEST_PROTOCOL):
         fd, path = tempfile.mkstemp(prefix="vf-c16-", suffix=".pkl")
         os.close(fd)
@@ -213,6 +230,27 @@ def run_shard(shard, out_base):
                     mon.viol(f"{kind}_not_equal:{la}:{'+'.join(diff)[:60]}", w, st, st2)
                 mon.tally("copies_checked")
     if part == 0:
+        # containers: objects with equal compact strings but different class / country, copied together
+        groups: dict = {}
+        for la, a in pool:
+            if la != "str":
+                groups.setdefault(str(a), []).append(a)
+        multi = [g for g in groups.values() if len({(type(x).__name__, getattr(x, "country_code", None)) for x in g}) > 1]
+        for g in multi[:60]:
+            for cont in (list(g), tuple(g), {"k%d" % i: x for i, x in enumerate(g)}, [g, list(reversed(g))]):
+                for mname, fn in (("deepcopy", copy.deepcopy), ("pickle", lambda x: pickle.loads(pickle.dumps(x))), ("copy_each", lambda x: copy.deepcopy(x, {}))):
+                    o = observe(fn, cont)
+                    mon.ev()
+                    mon.distinct(("container", str(g[0]), type(cont).__name__, mname))
+                    flat_in = list(cont.values()) if isinstance(cont, dict) else [y for x in cont for y in (x if isinstance(x, list) else [x])]
+                    if not o.ok:
+                        mon.viol(f"{mname}_of_container_raised", {"objects": [[type(x).__name__, esc(str(x)), getattr(x, "country_code", None)] for x in g]}, "copies", o.brief())
+                        continue
+                    flat_out = list(o.value.values()) if isinstance(o.value, dict) else [y for x in o.value for y in (x if isinstance(x, list) else [x])]
+                    if [state(x) for x in flat_in] != [state(x) for x in flat_out]:
+                        mon.viol(f"{mname}_of_container_not_equal", {"objects": [[type(x).__name__, esc(str(x)), getattr(x, "country_code", None)] for x in g]},
+                                 [state(x) for x in flat_in][:3], [state(x) for x in flat_out][:3])
+            mon.tally("containers_copied")
         objs = [x for _, x in pool]
         o = observe(sorted, objs)
         want = sorted(str(x) for x in objs)
